@@ -2,7 +2,7 @@
 import json, os
 from vlib import core
 
-THEOREMS = ['source_shape', 'stop_recognised', 'never_gives_up', 'failure_count', 'reports_exact', 'down_after_two', 'up_on_reconnect',
+THEOREMS = ['source_shape', 'attempt_rule', 'stop_recognised', 'never_gives_up', 'failure_count', 'reports_exact', 'down_after_two', 'up_on_reconnect',
             'reports_alternate', 'reports_follow_state', 'no_dial_after_stop', 'stop_is_silent', 'next_dial_uses_latest_addr',
             'retry_calls_bounded', 'trysend_retries', 'trysend_stops']
 MODULES = ['LLRP.Model.Supervisor', 'LLRP.Oracle.C15']
@@ -27,7 +27,7 @@ ASSUMPTIONS = [
     "attempt's timestamp; unvalidated runs are repeated",
     'the 60 s read timeout (accept-then-silent) is exercised in the thorough tier only',
 ]
-SUP_VERBS = ('supervisor', 'supervisor-slowsdk', 'supervisor-rejcfg', 'supervisor-start')
+SUP_VERBS = ('supervisor', 'supervisor-slowsdk', 'supervisor-rejcfg', 'supervisor-start', 'supervisor-long')
 TRUSTED = ['harness net.Addr whose Network() call marks the start of an attempt; llrp.TestDevice as the scripted reader; testify mock SDK']
 
 
@@ -50,6 +50,8 @@ def _only_of(line):
         only = 'rej ' + only
     if line.startswith('supervisor-start '):
         only = 'start ' + only
+    if line.startswith('supervisor-long '):
+        only = 'long ' + only
     return only
 
 
